@@ -47,6 +47,7 @@ def run(repo, tier):
     r.rule("R15.2", "a possibly-unspecified option never reaches a truth test before it is resolved", floor=2)
     r.rule("R15.3", "extra precision: __init__ stores the options backend_context applies; backend calls run inside backend_context", floor=5)
     r.rule("R15.5", "mpf2float's underflow/overflow results carry the sign: the negative arm is a float negative zero / negative infinity", floor=2)
+    r.rule("R15.6", "mpf2float's underflow and overflow tests read the exponent and bit count of the value rounded to the target precision, on every path", floor=2)
     r.rule("R15.4", "mpf2float reads IEEE-correct exponent tables and keys them by the flush flag the right way round", floor=13)
 
     n_res = 0
@@ -208,15 +209,16 @@ def run(repo, tier):
     ok = norm_src(ie.test) == "flush_subnormals" and "float_minexp" in norm_src(ie.body) and "float_subexp" in norm_src(ie.orelse)
     r.ob("R15.4", f"{REL}::mpf2float zero threshold", ok, f"`{norm_src(ie)}`: flushing must cut at float_minexp (smallest normal), otherwise at float_subexp", loc(REL, ie))
     # R15.5: returns under the two range tests
+    rtests = check_range_tests_after_rounding(r, repo, mf)
     n55 = 0
     for n in ast.walk(mf):
-        if isinstance(n, ast.If) and isinstance(n.test, ast.Compare) and norm_src(n.test.left) == "exp + bc":
+        if isinstance(n, ast.If) and id(n.test) in rtests:
             rets = [x for x in n.body if isinstance(x, ast.Return)]
             if len(rets) != 1:
                 continue
             n55 += 1
             v = rets[0].value
-            under = isinstance(n.test.ops[0], ast.Lt)
+            under = rtests[id(n.test)]["kind"] == "under"
             # negated *integer* zero has no sign
             int_neg_zero = [x for x in ast.walk(v) if isinstance(x, ast.UnaryOp) and isinstance(x.op, ast.USub) and isinstance(x.operand, ast.Constant)
                             and isinstance(x.operand.value, int) and not isinstance(x.operand.value, bool) and x.operand.value == 0]
@@ -234,11 +236,71 @@ def run(repo, tier):
             r.ob("R15.5", f"{REL}::mpf2float {what} result", ok, detail, loc(REL, rets[0]))
     if n55 < 2:
         raise AnalysisError("mpf2float: underflow/overflow early returns not found")
-    cmps = [n for n in ast.walk(mf) if isinstance(n, ast.Compare) and norm_src(n.left) == "exp + bc"]
-    got = {norm_src(c) for c in cmps}
-    ok = any(c.startswith("exp + bc < zexp") for c in got) and any("exp + bc > vectorize_with_mpmath.float_maxexp[fp_format]" == c for c in got)
-    r.ob("R15.4", f"{REL}::mpf2float range tests", ok, f"range tests are {sorted(got)}", loc(REL, mf))
+    kinds = sorted(f"{v['kind']}:{v['dir']}" for v in rtests.values())
+    ok = "under:below" in kinds and "over:above" in kinds and all(k in ("under:below", "over:above") for k in kinds)
+    r.ob("R15.4", f"{REL}::mpf2float range tests", ok, f"range tests are {sorted(v['text'] + ' (' + v['kind'] + ':' + v['dir'] + ')' for v in rtests.values())}: "
+         "zero is returned below the zero threshold, infinity above float_maxexp", loc(REL, mf))
     return r
+
+
+def check_range_tests_after_rounding(r, repo, mf, rule="R15.6"):
+    """On every path of mpf2float, each underflow/overflow test (a comparison against one of the exponent tables)
+    reads the exponent and bit count produced by the rounding to the target precision (_normalize), never the raw
+    mpf fields: rounding can carry into the next binade, which moves a value across either threshold."""
+    from sa.paths import enumerate_paths
+    from sa.defuse import last_def, origins
+
+    TABLES = ("float_minexp", "float_subexp", "float_maxexp")
+    n = 0
+    seen = set()
+    found = {}
+    for path in enumerate_paths(mf, unroll=(0, 1), limit=20000):
+        ev_ = path.events
+        for i, e in enumerate(ev_):
+            if e.kind != "test" or not isinstance(e.node, ast.Compare) or len(e.node.comparators) != 1:
+                continue
+            sides = [e.node.left, e.node.comparators[0]]
+            tab = [any(k[0] == "attr" and k[1].split(".")[-1] in TABLES for k in origins(sd, ev_, i)) for sd in sides]
+            if tab[0] == tab[1]:
+                continue
+            quantity = sides[1] if tab[0] else sides[0]
+            tabs = {k[1].split(".")[-1] for k in origins(sides[0] if tab[0] else sides[1], ev_, i) if k[0] == "attr" and k[1].split(".")[-1] in TABLES}
+            op = e.node.ops[0]
+            below = (isinstance(op, (ast.Lt, ast.LtE)) and not tab[0]) or (isinstance(op, (ast.Gt, ast.GtE)) and tab[0])
+            above = (isinstance(op, (ast.Gt, ast.GtE)) and not tab[0]) or (isinstance(op, (ast.Lt, ast.LtE)) and tab[0])
+            info = found.setdefault(id(e.node), dict(kind="over" if tabs == {"float_maxexp"} else "under" if tabs <= {"float_minexp", "float_subexp"} else "mixed",
+                                                   dir="below" if below else "above" if above else "other", text=norm_src(e.node), tabs=set()))
+            info["tabs"] |= tabs
+            names = sorted({x.id for x in ast.walk(quantity) if isinstance(x, ast.Name)})
+            bad = []
+
+            def leaves(expr, at, depth=0):
+                # follow plain arithmetic through local assignments; stop at calls, attributes and parameters
+                for x in ast.walk(expr):
+                    if isinstance(x, ast.Name):
+                        ld = last_def(x.id, ev_, at)
+                        v = ld[1] if ld else None
+                        if isinstance(v, ast.Call) and (dotted(v.func) or "").endswith("_normalize"):
+                            continue
+                        if v is not None and depth < 10 and not isinstance(v, (ast.Call, ast.Attribute, ast.AugAssign)) and any(isinstance(y, ast.Name) for y in ast.walk(v)):
+                            leaves(v, ld[0], depth + 1)
+                            continue
+                        if v is not None and isinstance(v, ast.Constant):
+                            continue
+                        bad.append(f"{x.id} <- `{norm_src(v) if v is not None else 'parameter'}`")
+
+            leaves(quantity, i)
+            bad = sorted(set(bad))
+            n += 1
+            key = (e.node.lineno, tuple(bad))
+            if key in seen:
+                continue
+            seen.add(key)
+            r.ob(rule, f"{REL}::mpf2float `{norm_src(e.node)}` reads rounded fields" + (f" [{'; '.join(bad)}]" if bad else ""), not bad,
+                 "the range test reads fields that were not produced by _normalize(..., prec, rounding): " + "; ".join(bad) if bad else f"operands {names} come from _normalize", loc(REL, e.node))
+    if n == 0:
+        raise AnalysisError("mpf2float: no comparison against the exponent tables found on any path")
+    return found
 
 
 def _assigned_before(f, use):
